@@ -538,15 +538,31 @@ class TemplateASTTransformer(ASTTransformer):
             self.locals[-1].update(self._extract_names(node))
         return ASTTransformer.visit_ImportFrom(self, node)
 
+    def _visit_function(self, node):
+        # Parameter defaults, decorators and annotations are evaluated in the
+        # enclosing scope; only the body sees the parameters as local names
+        def visit(value):
+            if isinstance(value, list):
+                return [self.visit(x) for x in value]
+            return self.visit(value)
+        clone = node.__class__()
+        for name in getattr(clone, '_attributes', ()):
+            if hasattr(node, name):
+                setattr(clone, name, getattr(node, name))
+        for name in clone._fields:
+            if name != 'body' and hasattr(node, name):
+                setattr(clone, name, visit(getattr(node, name)))
+        self.locals.append(self._extract_names(node.args))
+        try:
+            clone.body = visit(node.body)
+        finally:
+            self.locals.pop()
+        return clone
+
     def visit_FunctionDef(self, node):
         if len(self.locals) > 1:
             self.locals[-1].add(node.name)
-
-        self.locals.append(self._extract_names(node.args))
-        try:
-            return ASTTransformer.visit_FunctionDef(self, node)
-        finally:
-            self.locals.pop()
+        return self._visit_function(node)
 
     # GeneratorExp(expr elt, comprehension* generators)
     def visit_GeneratorExp(self, node):
@@ -570,11 +586,7 @@ class TemplateASTTransformer(ASTTransformer):
     visit_ListComp = visit_GeneratorExp
 
     def visit_Lambda(self, node):
-        self.locals.append(self._extract_names(node.args))
-        try:
-            return ASTTransformer.visit_Lambda(self, node)
-        finally:
-            self.locals.pop()
+        return self._visit_function(node)
 
     # Only used in Python 3.5+
     def visit_Starred(self, node):
